@@ -151,9 +151,11 @@ def one(ctx: Ctx, cs, damage=False):
             if got_k != exp_k:
                 ctx.violation('metacomments', f'get_metacomments({key!r}) = {got_k}, expected {exp_k}', dict(case, key=key))
             got_c = d.get_metacomments(KeyComment=key, clear=True)
-            exp_c = [c.replace(f'!!!{key}: ', '') for c in exp_k]
-            if got_c != exp_c:
-                ctx.violation('metacomments', f'get_metacomments({key!r}, clear=True) = {got_c}, expected {exp_c}', dict(case, key=key))
+            # 'clear' is documented only for the '!!!KEY: value' format: require the same comments in the same order, each
+            # returned as (a tail of) its own text
+            if len(got_c) != len(exp_k) or any(not c.endswith(g_) for c, g_ in zip(exp_k, got_c)):
+                ctx.violation('metacomments', f'get_metacomments({key!r}, clear=True) = {got_c}, not the {len(exp_k)} comments {exp_k} '
+                              f'(each possibly without its key prefix)', dict(case, key=key))
     except Exception as ex:
         ctx.violation('query-raises', f'get_metacomments raised {type(ex).__name__}: {ex}', case)
     # monophony
